@@ -371,7 +371,7 @@ class ABCCost():
 
   @staticmethod
   def _hess(x, a, b, c, x_l, x_h):
-    if x_l == x_h:
+    if x_l == x_h or b == 1:
       return 0
     return c*b*(b-1)*ABCCost.q(x, x_l, x_h, a)**(b-2)*((1 - a)/(x_h - x_l))**2
 
